@@ -82,6 +82,8 @@ class Model:
         self.assume = dict(assume or {})  # first-iteration test term -> bool
         self.exits = []                   # (kind 'ok'|'err', node, snapshot of vec, tested info)
         self.log = []
+        self.dots = {}                    # id(dot call node) -> (node, value of operand 1, value of operand 2) at evaluation time
+        self.norms = {}                   # id(norm_2 call node) -> (node, value of the vector) at evaluation time
 
     # ---- scalars
     def scalar(self, t):
@@ -155,6 +157,36 @@ class Model:
             return {}
         raise Unclassified("vector expression %s" % (t,))
 
+    def _operand(self, a):
+        """Value of a vector operand of dot/norm_2 at this program point (HIR node, so that an inlined immutable let is
+        looked up as the variable we track, not re-evaluated on a later state)."""
+        a = strip(a)
+        while a.get("k") in ("AddrOf",) or (a.get("k") == "Unary" and a.get("op") == "*") or \
+                (a.get("k") == "MethodCall" and a.get("name") == "clone" and not a.get("args")):
+            a = strip(a["e"] if "e" in a else a["recv"])
+        if a.get("k") == "Local":
+            v = self.lval(a)
+            if v in self.vec_vars:
+                return dict(self.vec[v])
+        return self.vecval(self.ctx.term(a))
+
+    def scan(self, n):
+        """Record the inner products and norms evaluated by expression n."""
+        if n is None:
+            return
+        for c in walk(n):
+            if c.get("k") != "MethodCall" or c.get("x"):
+                continue
+            p = callee_path(c) or ""
+            try:
+                if p.endswith("::dot") and len(call_args(c)) == 2:
+                    a, b = call_args(c)
+                    self.dots[id(c)] = (c, self._operand(a), self._operand(b))
+                elif p.endswith("::norm_2") and len(call_args(c)) == 1:
+                    self.norms[id(c)] = (c, self._operand(call_args(c)[0]))
+            except Unclassified:
+                self.dots.setdefault(id(c), (c, None, None)) if p.endswith("::dot") else self.norms.setdefault(id(c), (c, None))
+
     # ---- statements
     def lval(self, n):
         t = self.ctx.term(n)
@@ -191,6 +223,7 @@ class Model:
             if pat.get("k") != "Bind":
                 raise Unclassified("let pattern")
             v = ("var", pat["v"])
+            self.scan(s["init"])
             t = self.term_now(s["init"])
             if v in self.vec_vars:
                 self.vec[v] = self.vecval(t)
@@ -210,6 +243,7 @@ class Model:
             return True
         if k == "Assign":
             v = self.lval(e["l"])
+            self.scan(e["r"])
             t = self.term_now(e["r"])
             if v in self.vec_vars:
                 self.vec[v] = self.vecval(t)
@@ -220,6 +254,7 @@ class Model:
             return True
         if k == "AssignOp":
             v = self.lval(e["l"])
+            self.scan(e["r"])
             t = self.term_now(e["r"])
             if v in self.vec_vars:
                 if e["op"] in ("+=", "+"):
@@ -247,6 +282,7 @@ class Model:
         if k == "If":
             return self.if_stmt(e)
         if k == "Ret":
+            self.scan(e.get("e"))
             self.exit(e)
             return False
         if k == "Block":
@@ -272,6 +308,7 @@ class Model:
         self.exits.append((kind, ret, {v: dict(c) for v, c in self.vec.items()}, dict(self.ver), payload))
 
     def if_stmt(self, e):
+        self.scan(e["cond"])
         cond_t = self.ctx.term(e["cond"])
         # first-iteration case split: the condition mentions only the loop counter and constants
         if self._is_counter_test(cond_t):
